@@ -211,6 +211,21 @@ pub fn for_backends<T: Elem, Vis: BackendVisitor<T>>(word: &[X], level: u8, vis:
         };
         debug_assert_eq!(view.len(), n);
         vis.visit(&format!("ArrayView1(step={step})"), &view);
+        // an *owned* array in the same non-standard layout (`slice_move` / `invert_axis` keep the storage and
+        // change the stride without copying): not contiguous, or contiguous but reversed (seed round 10)
+        if level >= 1 || step == -1 || step == 2 {
+            let owned: Array1<T> = if n == 0 { base.clone().slice_move(s![1..1]) } else { base.clone().slice_move(s![1..1 + (n - 1) * a + 1; step]) };
+            debug_assert_eq!(owned.len(), n);
+            vis.visit(&format!("Array1(owned, step={step})"), &owned);
+            if step == -1 {
+                let mut inv = Array1::from_vec(items.iter().rev().cloned().collect::<Vec<T>>());
+                inv.invert_axis(ndarray::Axis(0));
+                vis.visit("Array1(owned, inverted axis)", &inv);
+                if level >= 1 {
+                    vis.visit("Arc<Array1(owned, inverted axis)>", &Arc::new(inv));
+                }
+            }
+        }
     }
 }
 
@@ -251,6 +266,11 @@ pub fn for_backends_opt<Vis: BackendVisitor<Option<f64>>>(word: &[X], level: u8,
     vis.visit("OptIter<Vec<f64>>", &nan.opt());
     let arr = Array1::from_vec(nan.clone());
     vis.visit("OptIter<Array1<f64>>", &arr.opt());
+    {
+        let mut inv = Array1::from_vec(nan.iter().rev().cloned().collect::<Vec<f64>>());
+        inv.invert_axis(ndarray::Axis(0));
+        vis.visit("OptIter<Array1<f64>(owned, inverted axis)>", &inv.opt());
+    }
     let chs = if level >= 1 { chunkings(word.len()) } else { chunkings(word.len()).into_iter().rev().take(2).collect() };
     for ch in chs {
         let ca = chunked_f64(word, &ch);
